@@ -480,6 +480,8 @@ def _generic_stats(run, hist, stats):
     jump = run.knobs.get('wall_jump')
     if jump and jump[0] <= getattr(run, 't_end', 0.0) - run.knobs['base']:
         bump('fault:wall_clock_stepped_during_the_run')
+    if run.knobs.get('strict_warnings'):
+        bump('fault:package_warnings_turned_into_errors')
     for h in hist.nodes.values():
         if not h.is_sched and h.spec.get('handler_self_cancel') and h.sd_exit:
             bump('fault:shutdown_handler_ended_with_own_CancelledError')
